@@ -2,11 +2,11 @@ CONSTANTS
   ModelVariant = "ok"
   Variant = "fixed"
   Boundary <- BndB
-  Alpha = {13, 10, 45, 120}
+  Alpha = {13, 45, 120}
   MaxPay = 2
   PartCounts = {0, 1, 2}
   LongPays = {60}
-  BufSizes = {1, 7, 50, 64}
+  BufSizes = {1, 7, 64}
 INIT Init
 NEXT Next
 INVARIANT ContractHolds
